@@ -221,6 +221,8 @@ static epoch_t stub_update_global_epoch(struct td* self, epoch_t curr_epoch, epo
 #define CALL_update_local_epoch td_update_local_epoch
 #define CALL_update_global_epoch td_update_global_epoch
 #endif
+epoch_t xv_mod_ne(epoch_t x);
+#define XV_MOD_NE(x) xv_mod_ne(x)                          /* x % number_epochs, see harness_td.h */
 /* ---------------- monitors ---------------- */
 unsigned g_rt, le_rem, ge_rem, ge_acq_rem, ge_first_rem;   /* ghost remainders modulo number_epochs, see harness_td.h */
 mptr* mon_src; unsigned mon_src_loads; mptr mon_src_last; int mon_src_last_order; uint64_t mon_src_last_clk;
